@@ -822,6 +822,11 @@ Step ==
             IN /\ (IF ok THEN TRUE ELSE PrintT("VERDICT " \o ToJson([ prop |-> Enforce, id |-> e.id, family |-> "syscalls", msg |-> "the calling process touched its environment: spawned " \o ToJson(e.execs) \o ", opened for writing " \o ToJson(e.writes) \o ", read " \o ToJson(e.reads) \o ", network " \o ToJson(e.nets) ])))
                /\ nbad' = nbad + (IF ok THEN 0 ELSE 1) /\ TLCSet(2, nbad')
                /\ UNCHANGED <<cur, nj, memo, ph, hk>>
+       [] e.ev = "envstate" ->
+            (* History.tla: a call leaves nothing behind in the process - here: the application's panic hook *)
+            /\ (IF e.ok \/ Enforce # "C18" THEN TRUE ELSE PrintT("VERDICT " \o ToJson([ prop |-> Enforce, id |-> e.id, family |-> "process-state", msg |-> e.what ])))
+            /\ nbad' = nbad + (IF e.ok \/ Enforce # "C18" THEN 0 ELSE 1) /\ TLCSet(2, nbad')
+            /\ UNCHANGED <<cur, nj, memo, ph, hk>>
        [] e.ev = "defaults" ->
             LET ok == e.opts = ST!DefaultOptions /\ e.validation_default_all
             IN /\ (IF ok \/ Enforce # "CONF" THEN TRUE ELSE PrintT("VERDICT " \o ToJson([ prop |-> Enforce, id |-> "defaults", family |-> "defaults", msg |-> "DRIFT WriteOptions::default() is " \o ToJson(e.opts) \o ", Generator.tla says " \o ToJson(ST!DefaultOptions) ])))
